@@ -87,7 +87,12 @@ class Ctx:
             p = subprocess.run(cmd, capture_output=True, text=True)
             if p.returncode:
                 raise AnalysisBroken("fixture %s does not compile: %s" % (name, p.stderr[-300:]))
-            p = subprocess.run([OPT, "-passes=mem2reg", "-S", base + ".raw.ll", "-o", base + ".ll"], capture_output=True, text=True)
+            # same normalisation as the library units (the fixtures include the repository's headers)
+            from .build import IRSPEC
+            p = subprocess.run([IRSPEC, base + ".raw.ll", base + ".spec.ll"], capture_output=True, text=True)
+            if p.returncode:
+                raise AnalysisBroken("irspec failed on fixture %s: %s" % (name, p.stderr[-200:]))
+            p = subprocess.run([OPT, "-passes=mem2reg", "-S", base + ".spec.ll", "-o", base + ".ll"], capture_output=True, text=True)
         else:
             cmd = [CLANG, "-std=c99"] + inc + list(flags) + ["-O3", "-g", "-fno-discard-value-names", "-S", "-emit-llvm", src, "-o", base + ".ll", "-w"]
             p = subprocess.run(cmd, capture_output=True, text=True)
